@@ -6,6 +6,7 @@ package interpreter
 //verif:intercept (*github.com/ysugimoto/falco/v2/interpreter.Interpreter).sendProcessResponse lkSend
 
 import (
+	"errors"
 	ghttp "net/http"
 	"sync"
 
@@ -21,11 +22,18 @@ import (
 // process, a shared counter), read it back over several steps, and answer
 // with what they read; under every interleaving within the preemption bound
 // each response must carry only its own marker, the counter must end at the
-// number of requests, and no data race may occur.
+// number of requests, and no data race may occur.  Request set-up fails for a
+// symbolic subset of the requests: every request still gets a response (a
+// request lock that is not released shows as a deadlock).
 
 var lkShared int // stands for the state shared by all requests (cache, rate counters)
 
+var lkInitFails map[string]bool // marker -> request set-up fails (include cycle, duplicated subroutine, too many backends ...)
+
 func lkInit(i *Interpreter, r *ihttp.Request) error {
+	if lkInitFails[r.Header.Get("X-Marker")] {
+		return errors.New("request set-up failed")
+	}
 	i.ctx = context.New()
 	i.process = process.New()
 	i.ctx.Request = r
@@ -69,6 +77,14 @@ func VerifRequestLock() {
 	lkShared = 0
 	markers := []string{"m", "mm", "mmm"}
 	ws := make([]*lkWriter, n)
+	lkInitFails = map[string]bool{}
+	fails := 0
+	for k := 0; k < n; k++ {
+		if nondet.Bool("initfail_" + markers[k]) {
+			lkInitFails[markers[k]] = true
+			fails++
+		}
+	}
 	var wg sync.WaitGroup
 	for k := 0; k < n; k++ {
 		ws[k] = &lkWriter{h: ghttp.Header{}}
@@ -81,10 +97,14 @@ func VerifRequestLock() {
 	wg.Wait()
 	for k := 0; k < n; k++ {
 		h := ws[k].h
+		if lkInitFails[markers[k]] {
+			nondet.Assert(ws[k].code >= 500, "a request whose set-up fails gets no error response")
+			continue
+		}
 		nondet.Assert(ws[k].code == 200, "a request got no response")
 		nondet.Assert(h.Get("A") == markers[k] && h.Get("B") == markers[k] && h.Get("C") == markers[k] && h.Get("D") == markers[k] && h.Get("E") == "ok",
 			"a response carries state of another request: concurrent requests are not serialised")
 	}
-	nondet.Assert(lkShared == n, "the shared state does not end at a value reachable by a one-at-a-time order")
+	nondet.Assert(lkShared == n-fails, "the shared state does not end at a value reachable by a one-at-a-time order")
 	nondet.Cover("checked")
 }
